@@ -38,6 +38,10 @@ pub fn positions() -> Vec<(&'static str, Ty, Box<dyn Fn(Enc) -> Enc + Sync + Sen
         ("header.key", Ty::Header, Box::new(|h| m(vec![(h, c(&u(1)))]))),
         ("key.key", Ty::Key, Box::new(|h| m(vec![(c(&u(1)), c(&u(1))), (h, c(&b(b"\x01")))]))),
         ("claims.key", Ty::Claims, Box::new(|h| m(vec![(h, c(&u(1)))]))),
+        // the same next to other labels of every kind (anything that orders or compares labels sees pairs)
+        ("header.key_among_others", Ty::Header, Box::new(|h| m(vec![(c(&u(99)), c(&u(0))), (h, c(&u(1))), (c(&gen::t("z")), c(&u(0))), (c(&i(-70000)), c(&u(0)))]))),
+        ("key.key_among_others", Ty::Key, Box::new(|h| m(vec![(c(&u(1)), c(&u(1))), (c(&u(1000)), c(&u(0))), (h, c(&b(b"\x01"))), (c(&gen::t("z")), c(&u(0))), (c(&i(-70000)), c(&u(0)))]))),
+        ("claims.key_among_others", Ty::Claims, Box::new(|h| m(vec![(c(&u(8)), c(&u(0))), (h, c(&u(1))), (c(&gen::t("z")), c(&u(0))), (c(&i(-70000)), c(&u(0)))]))),
         ("header.alg", Ty::Header, Box::new(|h| m(vec![(c(&u(1)), h)]))),
         ("key.alg", Ty::Key, Box::new(|h| m(vec![(c(&u(1)), c(&u(1))), (c(&u(3)), h)]))),
         ("kdf.alg", Ty::Kdf, Box::new(move |h| a(vec![h, party(), party(), supp()]))),
